@@ -394,6 +394,7 @@ class Task(Value, Generic[P, R]):
             task_options_base=self._task_options_base,
             task_options_override=new_task_options_update,
             export_options=set(self._export_options),
+            hash_includes=self._hash_includes,
         )
 
     def export_options(self, **task_options_update: Any) -> "Task[P, R]":
@@ -422,6 +423,7 @@ class Task(Value, Generic[P, R]):
             task_options_base=self._task_options_base,
             task_options_override=new_task_options_update,
             export_options=export_options,
+            hash_includes=self._hash_includes,
         )
 
     def update_context(self, context: dict = {}, **kwargs: Any) -> "Task[P, R]":
